@@ -28,6 +28,7 @@ type Program struct {
 	Spec      *SpecFile
 	Contracts map[*ssa.Function]*Contract
 	Iface     map[string]*Contract // "pkgpath.Iface.Method" -> contract
+	IfaceImpls map[string][]*ssa.Function // same key -> the module's methods implementing it
 	ChanInv   map[string]*Contract // "Type.field" -> contract
 	FuncType  map[string]*Contract
 	Unbound   []string
@@ -36,6 +37,7 @@ type Program struct {
 	RepoDir   string
 	closable  map[string]bool // channel roles that some function of the module closes
 	closableElems []types.Type // element types of the channels the module closes
+	proveAll  map[*ssa.Function]bool // dependency functions of the current property: all clauses proved
 	loopCache map[*ssa.Function][]*Loop
 	dtCache   map[string]*Datatype
 	typeTags  map[string]int
@@ -172,7 +174,115 @@ func LoadProgram(repo string) (*Program, error) {
 			P.FuncType[c.Name] = c
 		}
 	}
+	P.bindImplementations(byRel)
 	return P, nil
+}
+
+// bindImplementations: behavioural subtyping, mechanically. Every method of the module that
+// implements an interface method under contract must satisfy that contract: its postconditions
+// are added to the method's own (label iface:<Iface.Method>:<label>), its frame becomes the
+// method's frame where the method declares none, and its preconditions must imply the
+// method's own (obligations of kind refine).
+func (P *Program) bindImplementations(byRel map[string]*ssa.Function) {
+	P.IfaceImpls = map[string][]*ssa.Function{}
+	var keys []string
+	for k := range P.Iface {
+		keys = append(keys, k)
+	}
+	sort.Strings(keys)
+	var fns []*ssa.Function
+	for _, fn := range P.ModFuncs {
+		fns = append(fns, fn)
+	}
+	sort.Slice(fns, func(i, j int) bool { return fns[i].String() < fns[j].String() })
+	for _, k := range keys {
+		ic := P.Iface[k]
+		dot := strings.LastIndex(ic.Name, ".")
+		if dot < 0 {
+			continue
+		}
+		iname, mname := ic.Name[:dot], ic.Name[dot+1:]
+		var it *types.Interface
+		for _, pkg := range P.Prog.AllPackages() {
+			if pkg.Pkg.Path() != ic.Pkg {
+				continue
+			}
+			if o := pkg.Pkg.Scope().Lookup(iname); o != nil {
+				it, _ = o.Type().Underlying().(*types.Interface)
+			}
+		}
+		if it == nil {
+			continue
+		}
+		for _, fn := range fns {
+			if fn.Parent() != nil || fn.Signature.Recv() == nil || fn.Name() != mname || fn.Blocks == nil || fn.Synthetic != "" {
+				continue
+			}
+			rt := fn.Signature.Recv().Type()
+			if !types.Implements(rt, it) {
+				continue
+			}
+			ct := P.Contracts[fn]
+			if ct != nil && ct.Trusted {
+				continue
+			}
+			if ct == nil {
+				ct = &Contract{Kind: "func", Name: relName(fn), Pkg: fnPkg(fn).Path(), File: ic.File, Line: ic.Line,
+					LoopInv: map[int][]*Clause{}, LoopDec: map[int]*Clause{}, LoopMod: map[int][]*Expr{}, LoopEns: map[int][]*Clause{}, LoopAsm: map[int][]*Clause{}}
+				P.Contracts[fn] = ct
+			}
+			ren := map[string]string{"self": fn.Params[0].Name()}
+			for i, pn := range ic.Params {
+				if i+1 < len(fn.Params) {
+					ren[pn] = fn.Params[i+1].Name()
+				}
+			}
+			rc := func(cl *Clause, label string) *Clause {
+				n := *cl
+				n.Expr = renameIdents(cl.Expr, ren)
+				n.Label = label
+				return &n
+			}
+			for i, en := range ic.Ensures {
+				l := en.Label
+				if l == "" {
+					l = fmt.Sprint(i + 1)
+				}
+				ct.Ensures = append(ct.Ensures, rc(en, "iface:"+ic.Name+":"+l))
+			}
+			if ct.IfaceReq == nil {
+				ct.IfaceReq = map[string][]*Clause{}
+			}
+			ct.IfaceReq[ic.Name] = []*Clause{}
+			for _, rq := range ic.Requires {
+				ct.IfaceReq[ic.Name] = append(ct.IfaceReq[ic.Name], rc(rq, rq.Label))
+			}
+			if !ct.HasMod && ic.HasMod {
+				ct.HasMod = true
+				for _, m := range ic.Modifies {
+					ct.Modifies = append(ct.Modifies, renameIdents(m, ren))
+				}
+			}
+			P.IfaceImpls[k] = append(P.IfaceImpls[k], fn)
+		}
+	}
+}
+
+func renameIdents(e *Expr, ren map[string]string) *Expr {
+	if e == nil {
+		return nil
+	}
+	n := *e
+	if e.Kind == "ident" {
+		if r, ok := ren[e.Name]; ok {
+			n.Name = r
+		}
+	}
+	n.Args = nil
+	for _, a := range e.Args {
+		n.Args = append(n.Args, renameIdents(a, ren))
+	}
+	return &n
 }
 
 func (P *Program) pos(p token.Pos) string {
